@@ -9,6 +9,7 @@
 #![allow(clippy::all)]
 
 extern crate rustc_abi;
+extern crate rustc_data_structures;
 extern crate rustc_driver;
 extern crate rustc_hir;
 extern crate rustc_interface;
@@ -28,6 +29,32 @@ use rustc_middle::ty::print::with_no_trimmed_paths;
 use rustc_middle::ty::{self, Instance, Ty, TyCtxt, TypingEnv};
 use rustc_span::Span;
 use std::fmt::Write as _;
+use std::sync::{Mutex, OnceLock};
+
+// ---------------------------------------------------------------- stash of built MIR
+// Type checking one function can ask for the coroutine witnesses of another (an `async fn`
+// whose future must be `Send`), which runs that body's later MIR passes and *steals* its
+// `mir_built` before this driver has read it.  The `mir_built` provider is therefore wrapped:
+// every body is copied into the arena at the moment it is built, and facts are taken from
+// the copies.
+type MirBuiltFn = for<'tcx> fn(TyCtxt<'tcx>, LocalDefId) -> &'tcx rustc_data_structures::steal::Steal<Body<'tcx>>;
+static DEFAULT_MIR_BUILT: OnceLock<MirBuiltFn> = OnceLock::new();
+static STASH: Mutex<Vec<(LocalDefId, usize)>> = Mutex::new(Vec::new());
+
+fn stash_mir_built<'tcx>(tcx: TyCtxt<'tcx>, def: LocalDefId) -> &'tcx rustc_data_structures::steal::Steal<Body<'tcx>> {
+    let r = (DEFAULT_MIR_BUILT.get().expect("default mir_built provider"))(tcx, def);
+    let copy: &'tcx Body<'tcx> = tcx.arena.alloc(r.borrow().clone());
+    STASH.lock().unwrap().push((def, copy as *const Body<'tcx> as usize));
+    r
+}
+
+fn stashed<'tcx>(tcx: TyCtxt<'tcx>, def: LocalDefId) -> &'tcx Body<'tcx> {
+    let _ = tcx.mir_built(def); // force the build (and with it the stash entry)
+    let g = STASH.lock().unwrap();
+    let p = g.iter().find(|(d, _)| *d == def).expect("stashed body").1;
+    // SAFETY: the copy lives in tcx's arena, i.e. for 'tcx
+    unsafe { &*(p as *const Body<'tcx>) }
+}
 
 // ---------------------------------------------------------------- JSON
 enum J {
@@ -538,8 +565,7 @@ impl<'tcx> Cx<'tcx> {
         let tcx = self.tcx;
         let did = ldid.to_def_id();
         let kind = tcx.def_kind(did);
-        let steal = tcx.mir_built(ldid);
-        let body = steal.borrow();
+        let body = stashed(tcx, ldid);
         let mut o: Vec<(&'static str, J)> = Vec::new();
         o.push(("path", s(self.path(did))));
         o.push(("kind", s(format!("{:?}", kind))));
@@ -712,6 +738,12 @@ impl<'tcx> Cx<'tcx> {
 struct Extract;
 
 impl Callbacks for Extract {
+    fn config(&mut self, config: &mut rustc_interface::interface::Config) {
+        config.override_queries = Some(|_sess, providers| {
+            let _ = DEFAULT_MIR_BUILT.set(providers.queries.mir_built);
+            providers.queries.mir_built = stash_mir_built;
+        });
+    }
     fn after_expansion<'tcx>(&mut self, _c: &Compiler, tcx: TyCtxt<'tcx>) -> Compilation {
         let out_dir = match std::env::var("CFDP_SA_OUT") {
             Ok(d) => d,
